@@ -6,7 +6,7 @@ SD=$(realpath "$1"); ID=$2; TIER=${3:-quick}
 WT=$(mktemp -d /tmp/seedwt_XXXX)
 git -C /repo worktree add -q --detach "$WT" HEAD || exit 2
 git -C "$WT" apply "$SD/patch.diff" || { echo "patch does not apply"; git -C /repo worktree remove --force "$WT"; exit 2; }
-cd /verif
+cd "$(dirname "$0")/.."
 VERIF_REPO="$WT" ./check "$ID" --tier "$TIER" 2>&1 | tail -${TAIL:-15}
 rc=${PIPESTATUS[0]}
 git -C /repo worktree remove --force "$WT"
